@@ -886,6 +886,18 @@ class EditableParentImpl(BaseParentImpl):
             space, cells, param,
             space_params, cells_params)
 
+    def _new_spec(self, cls, path, spec_args, io_args):
+        """Create an IOSpec for the model in the IOManager of the session"""
+        if self.system.models.get(self.model.name) is not self.model:
+            # close_model has released the specs of the model:
+            # a spec created now would stay in the IOManager forever
+            raise RuntimeError(
+                "cannot create %s: model '%s' is closed"
+                % (cls.__name__, self.model.name))
+        return self.system.iomanager.new_spec(
+            cls, io_group=self.model.interface, path=path,
+            spec_args=spec_args, io_args=io_args)
+
     def new_excel_range(self, name, path, range_, sheet, keyids, loadpath):
 
         from modelx.io.excelio import ExcelRange
@@ -895,11 +907,7 @@ class EditableParentImpl(BaseParentImpl):
                  "keyids": keyids}
         dargs = {"load_from": loadpath}
 
-        result = self.system.iomanager.new_spec(ExcelRange,
-                                         io_group=self.model.interface,
-                                         path=path,
-                                         spec_args=cargs,
-                                         io_args=dargs)
+        result = self._new_spec(ExcelRange, path, cargs, dargs)
 
         try:
             self.set_attr(name, result)
@@ -912,10 +920,8 @@ class EditableParentImpl(BaseParentImpl):
     def new_pandas(self, name, path, data, file_type, sheet):
 
         from modelx.io.pandasio import PandasData
-        spec = self.system.iomanager.new_spec(
-            PandasData,
-            io_group=self.model.interface,
-            path=path,
+        spec = self._new_spec(
+            PandasData, path,
             spec_args={"data": data, "sheet": sheet},
             io_args={"file_type": file_type}
         )
@@ -931,10 +937,8 @@ class EditableParentImpl(BaseParentImpl):
 
         from modelx.io.moduleio import ModuleData
 
-        spec = self.system.iomanager.new_spec(
-            ModuleData,
-            io_group=self.model.interface,
-            path=path,
+        spec = self._new_spec(
+            ModuleData, path,
             spec_args={"module": module},
             io_args={"module": module}
         )
